@@ -1,0 +1,37 @@
+//go:build verif
+
+package grpcutil
+
+// Contracts checked by /verif (contract-based deductive verification).
+// This file is comment-only; it is compiled only with -tags=verif.
+
+//@ spec func unitOf(c byte) Z {
+//@   switch c {
+//@   case 'n': return 1
+//@   case 'u': return 1000
+//@   case 'm': return 1000000
+//@   case 'S': return 1000000000
+//@   case 'M': return 60000000000
+//@   case 'H': return 3600000000000
+//@   }
+//@   return 0
+//@ }
+
+//@ func div
+//@   prop C07
+//@   nopanic
+//@   requires d > 0 && r > 0
+//@   ensures  result >= 1
+//@   ensures  Z(result)*Z(r) >= Z(d)
+//@   ensures  (Z(result)-1)*Z(r) < Z(d)
+
+//@ func EncodeDuration
+//@   prop C07
+//@   nopanic
+//@   ensures  len(result) >= 2 && len(result) <= 9
+//@   ensures  unitOf(result[len(result)-1]) != 0
+//@   ensures  strdigits(result[:len(result)-1])
+//@   ensures  implies(t <= 0, result == "0n")
+//@   ensures  implies(t > 0, parsedec(result[:len(result)-1]) * unitOf(result[len(result)-1]) >= Z(t))
+//@   ensures  implies(t > 0, (parsedec(result[:len(result)-1]) - 1) * unitOf(result[len(result)-1]) < Z(t))
+//@   ensures  parsedec(result[:len(result)-1]) <= 99999999
